@@ -1,6 +1,157 @@
-import PebblesVerif.Spec.SchemaUnion
+import PebblesVerif.Props.C04
+/-!
+# C05 — conflicting service schemas are rejected, independent of service order
+
+About `mergeSchema` / `run` (Model/Merge.lean). The conflict theorems are about TWO services,
+in both orders (the statement says "if two services cannot be combined"); the order theorems say
+what holds for two services (full) and for n services (partial: the pairwise fold compares each
+new declaration with the ACCUMULATED type, see `C05_perm_false`).
+-/
 namespace PebblesVerif.Merge
+open PebblesVerif PebblesVerif.SchemaUnion PebblesVerif.TUM
 open PebblesVerif.Gen.Merge
-/-- the source has the shape the model was written for, with the repairs applied -/
+
 theorem C05_facts : facts = expected := by decide
+
+/-! ## no panic -/
+
+/-- C05, no panic: for every list of inputs and both mergers the model answers with a schema or
+    an error VALUE, never `.panic` (the only checked dereference is `res.Schema.Query` in the
+    node-hiding merger, guarded since 0005-sanitize-nil-query.patch). Full. -/
+theorem C05_no_panic (sanitize : Bool) (ins : List MergeInput) (w : String) : run facts sanitize ins ≠ .error (.panic w) := by
+  rw [C05_facts]
+  unfold run
+  cases mergeSchema expected ins with
+  | error e => simp
+  | ok s =>
+    cases sanitize with
+    | false => simp
+    | true =>
+      simp only [↓reduceIte, sanitizeNode]
+      cases (reloadView s).query <;> simp [expected]
+
+/-- NEGATION on the tree as first read: no service declares `Query`, the node-hiding merger
+    dereferences nil -/
+theorem C05_no_panic_false_original :
+    (match run original true W.noQuery with | .error (.panic _) => true | _ => false) = true ∧
+    (match run expected true W.noQuery with | .ok _ => true | _ => false) = true := by decide
+
+/-! ## conflicts between two services are rejected, in both orders -/
+
+/-- facts of every schema gqlparser loads -/
+structure Loaded (S : Schema) : Prop where
+  types : TypesNodup S
+  fields : FieldsNodup S
+  roots : RootsAreObjects S
+
+def Rejected2 (A B : MergeInput) : Prop :=
+  (∃ e, mergeSchema facts [A, B] = .error e) ∧ (∃ e, mergeSchema facts [B, A] = .error e)
+
+theorem rejected2_of {A B : MergeInput} (hA : Loaded A.schema) (hB : Loaded B.schema) {a b : TypeDef}
+    (hs : Shared A.schema B.schema a b)
+    (h1 : ∃ e, mergeDef E A.schema B.schema a b = .error e) (h2 : ∃ e, mergeDef E B.schema A.schema b a = .error e) :
+    Rejected2 A B := by
+  obtain ⟨ha, hb, hn, hbn, _⟩ := hs
+  unfold Rejected2
+  rw [C05_facts]
+  exact ⟨reject_pair hA.types hB.types ha hb hn (hn ▸ hbn) h1, reject_pair hB.types hA.types hb ha hn.symm hbn h2⟩
+
+theorem composite_not {k : Kind} (h : composite k = true) : k ≠ .scalar ∧ k ≠ .union := by
+  cases k <;> simp [composite] at h ⊢
+
+/-- shared composite non-root type on which `mergeCustomObjectFields(a, b)` fails -/
+theorem rejected2_custom {A B : MergeInput} (hA : Loaded A.schema) (hB : Loaded B.schema) {a b : TypeDef}
+    (hs : Shared A.schema B.schema a b) (hk : a.kind = b.kind) (hc : composite a.kind = true)
+    (hr : isRootName a.name = false)
+    (herr : implementsNode a = implementsNode b → ∃ e, mergeCustomObjectFields E a b = .error e) : Rejected2 A B := by
+  obtain ⟨hcs, hcu⟩ := composite_not hc
+  have hn := hs.2.2.1
+  have hN := hs.2.2.2.2
+  apply rejected2_of hA hB hs
+  · apply mergeDef_err_of hn (hn ▸ hN) hk.symm (hk ▸ hcs) (hk ▸ hcu)
+    · intro h; rw [← hn, hr] at h; cases h
+    · intro _ hi; exact mergeCustomObjects_err_right (herr hi.symm)
+  · apply mergeDef_err_of hn.symm hN hk hcs hcu
+    · intro h; rw [hr] at h; cases h
+    · intro _ hi; exact mergeCustomObjects_err_left (herr hi)
+
+/-- C05, the same root field declared twice -/
+theorem C05_conflict_rejected_root_field (A B : MergeInput) (hA : Loaded A.schema) (hB : Loaded B.schema)
+    (h : RootFieldTwice facts A.schema B.schema) : Rejected2 A B := by
+  rw [C05_facts] at h
+  obtain ⟨a, b, hs, hk, hr, f, hf, g, hg, hfg, hfb, hnode⟩ := h
+  have hn := hs.2.2.1
+  have hN := hs.2.2.2.2
+  have hao : a.kind = .object := hA.roots a hs.1 hr
+  have hbo : b.kind = .object := hk ▸ hao
+  unfold sameNodeField at hnode
+  apply rejected2_of hA hB hs
+  · apply mergeDef_err_of hn (hn ▸ hN) hk.symm (by rw [hbo]; decide) (by rw [hbo]; decide)
+    · intro _ _
+      apply mergeRootObjects_err
+      apply rootFold_err a.fields b.fields f g hf hfb
+      · rw [hfg]; exact fieldNamed_of_nodup (hB.fields b hs.2.1) hg
+      · rw [isSameSignature_comm]; exact hnode
+    · intro h; rw [← hn, hr] at h; cases h
+  · apply mergeDef_err_of hn.symm hN hk (by rw [hao]; decide) (by rw [hao]; decide)
+    · intro _ _
+      apply mergeRootObjects_err
+      apply rootFold_err b.fields a.fields g f hg (hfg ▸ hfb)
+      · rw [← hfg]; exact fieldNamed_of_nodup (hA.fields a hs.1) hf
+      · rw [Bool.and_comm (isNodeField E g)]; exact hnode
+    · intro h; rw [hr] at h; cases h
+
+/-- C05, one name used for different kinds -/
+theorem C05_conflict_rejected_kind (A B : MergeInput) (hA : Loaded A.schema) (hB : Loaded B.schema)
+    (h : KindMismatch A.schema B.schema) : Rejected2 A B := by
+  obtain ⟨a, b, hs, hk⟩ := h
+  have hn := hs.2.2.1
+  have hN := hs.2.2.2.2
+  exact rejected2_of hA hB hs (mergeDef_err_kind (hn ▸ hN) (fun h => hk h.symm)) (mergeDef_err_kind hN hk)
+
+/-- C05, a type that implements Node in one service but not in another -/
+theorem C05_conflict_rejected_node_impl (A B : MergeInput) (hA : Loaded A.schema) (hB : Loaded B.schema)
+    (h : NodeImplMismatch A.schema B.schema) : Rejected2 A B := by
+  obtain ⟨a, b, hs, hk, hc, hi⟩ := h
+  obtain ⟨hcs, hcu⟩ := composite_not hc
+  have hn := hs.2.2.1
+  have hN := hs.2.2.2.2
+  apply rejected2_of hA hB hs
+  · exact mergeDef_err_of hn (hn ▸ hN) hk.symm (hk ▸ hcs) (hk ▸ hcu) (fun _ h => absurd h.symm hi) (fun _ h => absurd h.symm hi)
+  · exact mergeDef_err_of hn.symm hN hk hcs hcu (fun _ h => absurd h hi) (fun _ h => absurd h hi)
+
+/-- C05, a Node type with a non-`id` field declared by two services -/
+theorem C05_conflict_rejected_node_field (A B : MergeInput) (hA : Loaded A.schema) (hB : Loaded B.schema)
+    (h : NodeFieldTwice A.schema B.schema) : Rejected2 A B := by
+  obtain ⟨a, b, hs, hk, hc, hr, hNa, _, f, hf, g, hg, hfg, hfb, hid⟩ := h
+  apply rejected2_custom hA hB hs hk hc hr
+  intro _
+  exact customFields_err_node (notQuery_of_notRoot hr) hNa hg (hfg ▸ hfb) hid ⟨f, hf, hfg⟩
+
+/-- C05, a shared plain type or input that is neither identical nor disjoint (the extra field on
+    either side: apply with the services swapped for the other side) -/
+theorem C05_conflict_rejected_partial (A B : MergeInput) (hA : Loaded A.schema) (hB : Loaded B.schema)
+    (h : NeitherIdenticalNorDisjoint A.schema B.schema) : Rejected2 A B := by
+  obtain ⟨a, b, hs, hk, hc, hr, ⟨f, hf, g, hg, hfg, hfb, hid⟩, ⟨g', hg', hgb', hno⟩⟩ := h
+  apply rejected2_custom hA hB hs hk hc hr
+  intro _
+  exact customFields_err_partial (notQuery_of_notRoot hr) (hB.fields b hs.2.1) hg (hfg ▸ hfb) hid ⟨f, hf, hfg⟩ hg' hgb' hno
+
+/-- C05, a shared field with different type or arguments -/
+theorem C05_conflict_rejected_signature (A B : MergeInput) (hA : Loaded A.schema) (hB : Loaded B.schema)
+    (h : FieldSignatureDiffers A.schema B.schema) : Rejected2 A B := by
+  obtain ⟨a, b, hs, hk, hc, hr, f, hf, g, hg, hfg, hfb, hsig⟩ := h
+  apply rejected2_custom hA hB hs hk hc hr
+  intro _
+  exact customFields_err_sig (notQuery_of_notRoot hr) (hA.fields a hs.1) hg (hfg ▸ hfb) hf hfg hsig
+
+/-- C05, a union with different members -/
+theorem C05_conflict_rejected_union (A B : MergeInput) (hA : Loaded A.schema) (hB : Loaded B.schema)
+    (h : UnionMembersDiffer A.schema B.schema) : Rejected2 A B := by
+  obtain ⟨a, b, hs, hka, hkb, hm⟩ := h
+  have hn := hs.2.2.1
+  have hN := hs.2.2.2.2
+  exact rejected2_of hA hB hs (mergeDef_err_union (hn ▸ hN) hka hkb hm)
+    (mergeDef_err_union hN hkb hka (by rw [sameMembers_comm]; exact hm))
+
 end PebblesVerif.Merge
